@@ -3,7 +3,10 @@ from props.common import run_bounded, verify_keys
 KEYS = ['parso.tree.Leaf.get_code', 'parso.tree.BaseNode.get_code', 'parso.tree.BaseNode._get_code_for_children',
         'parso.utils.python_bytes_to_unicode', 'parso.python.parser.Parser.convert_leaf', 'parso.tree.Leaf.__init__',
         'parso.python.tokenize._close_fstring_if_necessary', 'parso.python.tokenize._find_fstring_string',
-        'parso.python.tokenize.FStringNode.allow_multiline', 'parso.python.tokenize._split_illegal_unicode_name']
+        'parso.python.tokenize.FStringNode.allow_multiline', 'parso.python.tokenize._split_illegal_unicode_name',
+        # every token of a finished rule stays a child of its node, except the zero-width INDENT / DEDENT of a suite;
+        # the prefix re-lexer tiles the prefix
+        'parso.python.parser.Parser.convert_node', 'parso.python.prefix.split_prefix']
 
 
 def run(report):
